@@ -42,7 +42,7 @@ theorem nodup_idx {l : List Nat} (hnd : l.Nodup) {i j a : Nat}
     (hi : l[i]? = some a) (hj : l[j]? = some a) : i = j :=
   (List.getElem?_inj (idx_lt hi) hnd).mp (hi.trans hj.symm)
 
-theorem idx_of_mem {l : List Nat} {a : Nat} (h : a ∈ l) : ∃ i, l[i]? = some a :=
+theorem idx_of_mem {l : List Nat} {a : Nat} (h : a ∈ l) : ∃ i : Nat, l[i]? = some a :=
   List.mem_iff_getElem?.mp h
 
 theorem drop1_app {l : List Nat} (n : Nat) (h : 0 < l.length) :
@@ -89,7 +89,10 @@ structure Inv (k : Kind) (s : St) : Prop where
   pClr : ∀ t v n, s.pc t = .cleared v n → Owned s t v n ∧ s.next n = 0
   pGot : ∀ t v n p, s.pc t = .gotTail v n p → Owned s t v n ∧ s.next n = 0 ∧ k = .spsc ∧ p = s.tail
   pX : ∀ t v n p, s.pc t = .xchgd v n p →
-    s.holder n = some t ∧ s.next p = 0 ∧ ∃ i, s.q[i]? = some p ∧ s.q[i + 1]? = some n
+    s.holder n = some t ∧ s.next p = 0 ∧ s.data n = v ∧
+      ∃ i, s.q[i]? = some p ∧ s.q[i + 1]? = some n
+  /-- (one producer) the node being linked is the last one -/
+  pXs : k = .spsc → ∀ t v n p, s.pc t = .xchgd v n p → n = s.tail
   single : k = .spsc → ∀ t, s.pc t ≠ .idle → s.pusher = some t
   /-- conservation: published = returned ++ in the consumer's hands ++ still queued -/
   vals : s.pushed = s.popped ++ inflight s ++ (s.q.drop 1).map s.data
@@ -101,8 +104,37 @@ structure Inv (k : Kind) (s : St) : Prop where
 
 theorem inv_init (k : Kind) (stub : Nat) (h0 : stub ≠ 0) : Inv k (init stub) := by
   constructor <;> simp [init, inflight, Owned]
-  all_goals trace_state
-  all_goals sorry
+  exact fun h => h0 h.symm
+
+/-- close a goal that is literally a field of the old invariant -/
+macro "inv_frame " h:term : tactic => `(tactic| first
+  | exact ($h).qpos | exact ($h).hq | exact ($h).tl | exact ($h).nd | exact ($h).nz
+  | exact ($h).lk | exact ($h).last | exact ($h).pHave | exact ($h).pClr | exact ($h).pGot
+  | exact ($h).pX | exact ($h).pXs | exact ($h).single | exact ($h).vals | exact ($h).cGotHead
+  | exact ($h).cGotNext | exact ($h).cMoved | exact ($h).cGotData | exact ($h).cWrote)
+
+theorem inflight_congr {s s' : St} (hc : s'.cpc = s.cpc)
+    (hd : ∀ h x, s.cpc = .moved h x → s'.data x = s.data x) : inflight s' = inflight s := by
+  unfold inflight
+  rw [hc]
+  cases hcpc : s.cpc <;> simp
+  exact hd _ _ hcpc
+
+theorem vals_frame {s s' : St}
+    (h : s.pushed = s.popped ++ inflight s ++ (s.q.drop 1).map s.data)
+    (hp : s'.pushed = s.pushed) (hpo : s'.popped = s.popped) (hq : s'.q = s.q)
+    (hc : s'.cpc = s.cpc) (hd : ∀ a, a ∈ s.q → s'.data a = s.data a)
+    (hmv : ∀ h x, s.cpc = .moved h x → x ∈ s.q) :
+    s'.pushed = s'.popped ++ inflight s' ++ (s'.q.drop 1).map s'.data := by
+  have hin : inflight s' = inflight s := inflight_congr hc (fun h x hm => hd _ (hmv h x hm))
+  have hmap : (s.q.drop 1).map s'.data = (s.q.drop 1).map s.data := by
+    apply List.map_congr_left
+    intro a ha
+    exact hd a (List.mem_of_mem_drop ha)
+  rw [hp, hpo, hq, hin, hmap]; exact h
+
+theorem head_mem {k : Kind} {s : St} (h : Inv k s) : s.head ∈ s.q := mem_of_idx h.hq
+theorem tail_mem {k : Kind} {s : St} (h : Inv k s) : s.tail ∈ s.q := mem_of_idx h.tl
 
 section steps
 variable {k : Kind} {s s' : St}
@@ -114,10 +146,1017 @@ theorem inv_callPush {t v : Nat} (h : Inv k s) (hs : step k s (.callPush t v) = 
   rename_i hc
   obtain ⟨hidle, hv, hfresh, hcons, hk⟩ := hc
   subst hs
-  cases h
-  constructor <;> simp only [upd_apply, inflight, Owned] at * <;> try assumption
-  all_goals sorry
+  constructor <;> try inv_frame h
+  case lk => have := h.lk; simp only [upd_apply]; grind
+  case pHave => have := h.pHave; simp only [upd_apply, Owned] at *; grind
+  case pClr => have := h.pClr; simp only [upd_apply, Owned] at *; grind
+  case pGot => have := h.pGot; simp only [upd_apply, Owned] at *; grind
+  case pX => have := h.pX; simp only [upd_apply]; grind
+  case single => have := h.single; simp only [upd_apply]; grind
+  case pXs => have := h.pXs; simp only [upd_apply]; grind
+
+theorem inv_wrDataClient {t n x : Nat} (h : Inv k s)
+    (hs : step k s (.wrDataClient t n x) = some s') : Inv k s' := by
+  simp only [step] at hs
+  split at hs
+  next v hpc =>
+    split at hs
+    next hc =>
+      obtain ⟨hx, hn0, hnq, hhold, hnode⟩ := hc
+      simp only [Option.some.injEq] at hs; subst hs
+      have hhd := head_mem h
+      constructor <;> try inv_frame h
+      case lk => have := h.lk; simp only [upd_apply]; grind
+      case pHave => have := h.pHave; simp only [upd_apply, Owned] at *; grind
+      case pClr => have := h.pClr; simp only [upd_apply, Owned] at *; grind
+      case pGot => have := h.pGot; simp only [upd_apply, Owned] at *; grind
+      case pX => have := h.pX; simp only [upd_apply] at *; grind
+      case single => have := h.single; simp only [upd_apply]; grind
+      case pXs => have := h.pXs; simp only [upd_apply]; grind
+      case vals =>
+        refine vals_frame (s := s) h.vals rfl rfl rfl rfl ?_ ?_
+        · intro a ha; simp only [upd_apply]; grind
+        · intro h' x' hm; have := h.cMoved _ _ hm; grind
+      case cWrote =>
+        intro h' d hw
+        have := h.cWrote _ _ hw
+        have hn : s.cpc.node = h' := by rw [hw]; rfl
+        simp only [upd_apply]; grind
+    next => simp at hs
+  next => simp at hs
+
+theorem inv_wrNext {t n x : Nat} (h : Inv k s)
+    (hs : step k s (.wrNext t n x) = some s') : Inv k s' := by
+  simp only [step] at hs
+  split at hs
+  next v m hpc =>
+    -- `n->next = NULL` on the node the producer owns
+    split at hs
+    next hc =>
+      obtain ⟨hnm, hx⟩ := hc
+      subst hnm hx
+      simp only [Option.some.injEq] at hs; subst hs
+      obtain ⟨hhold, hnq, hn0, hdat, hnode⟩ := h.pHave _ _ _ hpc
+      have hhd := head_mem h
+      have htl := tail_mem h
+      constructor <;> try inv_frame h
+      case lk =>
+        intro i a b hi hj
+        have ha := mem_of_idx hi
+        have := h.lk i a b hi hj
+        simp only [upd_apply]; grind
+      case last => simp only [upd_apply]; have := h.last; grind
+      case pHave => have := h.pHave; simp only [upd_apply, Owned] at *; grind
+      case pClr => have := h.pClr; simp only [upd_apply, Owned] at *; grind
+      case pGot => have := h.pGot; simp only [upd_apply, Owned] at *; grind
+      case pX =>
+        intro t' v' n' p' hp
+        simp only [upd_apply] at hp
+        have hne : t' ≠ t := by grind
+        simp only [hne, if_false] at hp
+        obtain ⟨h1, h2, hd, i, h3, h4⟩ := h.pX _ _ _ _ hp
+        have := mem_of_idx h3
+        refine ⟨h1, ?_, hd, i, h3, h4⟩
+        simp only [upd_apply]; grind
+      case single => have := h.single; simp only [upd_apply]; grind
+      case pXs => have := h.pXs; simp only [upd_apply]; grind
+      case cGotNext =>
+        intro h' x' hg
+        have := h.cGotNext _ _ hg
+        simp only [upd_apply]; grind
+    next => simp at hs
+  next v m p hpc =>
+    -- the link write `p->next = m`
+    split at hs
+    next hc =>
+      obtain ⟨hnp, hx⟩ := hc
+      subst hnp hx
+      simp only [Option.some.injEq] at hs; subst hs
+      obtain ⟨hhold, hnext, hdat0, i0, hi0, hj0⟩ := h.pX _ _ _ _ hpc
+      have hnd := h.nd
+      constructor <;> try inv_frame h
+      case lk =>
+        intro i a b hi hj
+        have := h.lk i a b hi hj
+        by_cases hap : a = n
+        · subst hap
+          have : i = i0 := nodup_idx hnd hi hi0
+          subst this
+          have : b = x := by rw [hj0] at hj; exact (Option.some.inj hj).symm
+          left; simp only [upd_apply]; grind
+        · simp only [upd_apply]; grind
+      case last =>
+        have htl := h.tl
+        have hlt := idx_lt hj0
+        have : s.tail ≠ n := by
+          intro he
+          rw [he] at htl
+          have := nodup_idx hnd htl hi0
+          omega
+        simp only [upd_apply]; have := h.last; grind
+      case pHave => have := h.pHave; simp only [upd_apply, Owned] at *; grind
+      case pClr =>
+        intro t' v' n' hp
+        simp only [upd_apply] at hp
+        have hne : t' ≠ t := by grind
+        simp only [hne, if_false] at hp
+        obtain ⟨⟨h1, h2, h3, h4, h5⟩, h6⟩ := h.pClr _ _ _ hp
+        have := mem_of_idx hi0
+        simp only [upd_apply, Owned]; grind
+      case pGot =>
+        intro t' v' n' p' hp
+        simp only [upd_apply] at hp
+        have hne : t' ≠ t := by grind
+        simp only [hne, if_false] at hp
+        obtain ⟨⟨h1, h2, h3, h4, h5⟩, h6, h7, h8⟩ := h.pGot _ _ _ _ hp
+        have := mem_of_idx hi0
+        simp only [upd_apply, Owned]; grind
+      case pX =>
+        intro t' v' n' p' hp
+        simp only [upd_apply] at hp
+        have hne : t' ≠ t := by grind
+        simp only [hne, if_false] at hp
+        obtain ⟨h1, h2, hd, i, h3, h4⟩ := h.pX _ _ _ _ hp
+        have hnm : n' ≠ x := by grind
+        have hpn : p' ≠ n := by
+          intro he; subst he
+          have : i = i0 := nodup_idx hnd h3 hi0
+          subst this
+          rw [hj0] at h4; exact hnm (Option.some.inj h4).symm
+        refine ⟨?_, ?_, hd, i, h3, h4⟩
+        · simp only [upd_apply]; grind
+        · simp only [upd_apply]; grind
+      case single => have := h.single; simp only [upd_apply]; grind
+      case pXs => have := h.pXs; simp only [upd_apply]; grind
+      case cGotNext =>
+        intro h' x' hg
+        have := h.cGotNext _ _ hg
+        simp only [upd_apply]; grind
+    next => simp at hs
+  next => simp at hs
+
+theorem inv_publish {t v n p : Nat} (h : Inv k s) (hown : Owned s t v n) (hnext : s.next n = 0)
+    (hp : p = s.tail) (hpc : s.pc t = .cleared v n ∨ s.pc t = .gotTail v n p)
+    (hoth : ∀ t' v' n' p', s.pc t' = .gotTail v' n' p' → t' = t) :
+    Inv k (publish s t v n p) := by
+  obtain ⟨hhold, hnq, hn0, hdat, hnode⟩ := hown
+  have hqpos := h.qpos
+  have htl := h.tl
+  constructor
+  case qpos => simp [publish]
+  case hq => exact idx_app n h.hq
+  case tl => simp [publish]
+  case nd =>
+    simp only [publish]
+    rw [List.nodup_append]
+    refine ⟨h.nd, by simp, ?_⟩
+    intro a ha b hb; simp at hb; subst hb; intro he; subst he; exact hnq ha
+  case nz =>
+    simp only [publish, List.mem_append, List.mem_singleton, not_or]
+    exact ⟨h.nz, fun he => hn0 he.symm⟩
+  case lk =>
+    intro i a b hi hj
+    simp only [publish] at hi hj ⊢
+    rcases idx_app_cases hj with hj' | ⟨hlen, hb⟩
+    · have hlt := idx_lt hj'
+      rcases idx_app_cases hi with hi' | ⟨hl, _⟩
+      · have := h.lk i a b hi' hj'
+        simp only [upd_apply]; grind
+      · omega
+    · subst hb
+      rcases idx_app_cases hi with hi' | ⟨hl, _⟩
+      · have hi2 : i = s.q.length - 1 := by omega
+        rw [hi2, htl] at hi'
+        have : a = s.tail := (Option.some.inj hi').symm
+        right
+        refine ⟨by rw [this]; exact h.last, t, v, ?_⟩
+        simp only [upd_apply, if_true]; rw [this, hp]
+      · omega
+  case last => simpa [publish] using hnext
+  case pHave =>
+    have := h.pHave
+    simp only [publish, upd_apply, Owned, List.mem_append, List.mem_singleton] at *
+    grind
+  case pClr =>
+    have := h.pClr
+    simp only [publish, upd_apply, Owned, List.mem_append, List.mem_singleton] at *
+    grind
+  case pGot =>
+    intro t' v' n' p' hp'
+    simp only [publish, upd_apply] at hp'
+    have hne : t' ≠ t := by grind
+    simp only [hne, if_false] at hp'
+    exact absurd (hoth _ _ _ _ hp') hne
+  case pX =>
+    intro t' v' n' p' hp'
+    simp only [publish, upd_apply] at hp' ⊢
+    by_cases hne : t' = t
+    · subst hne
+      simp only [if_true, Pc.xchgd.injEq] at hp'
+      obtain ⟨rfl, rfl, rfl⟩ := hp'
+      refine ⟨hhold, by rw [hp]; exact h.last, hdat, s.q.length - 1, ?_, ?_⟩
+      · rw [hp]; exact idx_app _ htl
+      · have : s.q.length - 1 + 1 = s.q.length := by omega
+        rw [this]; simp
+    · simp only [hne, if_false] at hp'
+      obtain ⟨h1, h2, hd, i, h3, h4⟩ := h.pX _ _ _ _ hp'
+      exact ⟨h1, h2, hd, i, idx_app _ h3, idx_app _ h4⟩
+  case pXs =>
+    intro hk t' v' n' p' hp'
+    simp only [publish, upd_apply] at hp' ⊢
+    by_cases hne : t' = t
+    · subst hne
+      simp only [if_true, Pc.xchgd.injEq] at hp'
+      exact hp'.2.1.symm
+    · simp only [hne, if_false] at hp'
+      have h1 := h.single hk t' (by rw [hp']; simp)
+      have h2 := h.single hk t (by rcases hpc with hpc | hpc <;> rw [hpc] <;> simp)
+      rw [h1] at h2; exact absurd (Option.some.inj h2) hne
+  case single =>
+    have := h.single
+    simp only [publish, upd_apply]; grind
+  case vals =>
+    have hin : inflight (publish s t v n p) = inflight s :=
+      inflight_congr rfl (fun _ _ _ => rfl)
+    rw [hin]
+    simp only [publish]
+    rw [drop1_app n hqpos, List.map_append, h.vals]
+    simp [hdat]
+  case cGotHead => exact h.cGotHead
+  case cGotNext => exact h.cGotNext
+  case cMoved =>
+    intro h' x' hm
+    simp only [publish] at hm
+    have := h.cMoved _ _ hm
+    have hn : s.cpc.node = h' := by rw [hm]; rfl
+    simp only [publish, List.mem_append, List.mem_singleton]; grind
+  case cGotData =>
+    intro h' x' d hm
+    simp only [publish] at hm
+    have := h.cGotData _ _ _ hm
+    have hn : s.cpc.node = h' := by rw [hm]; rfl
+    simp only [publish, List.mem_append, List.mem_singleton]; grind
+  case cWrote =>
+    intro h' d hm
+    simp only [publish] at hm
+    have := h.cWrote _ _ hm
+    have hn : s.cpc.node = h' := by rw [hm]; rfl
+    simp only [publish, List.mem_append, List.mem_singleton]; grind
+
+theorem inv_xchgTail {t o n : Nat} (h : Inv k s)
+    (hs : step k s (.xchgTail t o n) = some s') : Inv k s' := by
+  simp only [step] at hs
+  split at hs
+  next v m hpc =>
+    split at hs
+    next hc =>
+      obtain ⟨hk, ho, hn⟩ := hc
+      subst hn
+      simp only [Option.some.injEq] at hs; subst hs
+      obtain ⟨hown, hnx⟩ := h.pClr _ _ _ hpc
+      refine inv_publish h hown hnx ho (Or.inl hpc) ?_
+      intro t' v' n' p' hg
+      have := (h.pGot _ _ _ _ hg).2.2.1
+      rw [hk] at this; cases this
+    next => simp at hs
+  next => simp at hs
+
+theorem inv_ldTail {t x : Nat} (h : Inv k s)
+    (hs : step k s (.ldTail t x) = some s') : Inv k s' := by
+  simp only [step] at hs
+  split at hs
+  next v m hpc =>
+    split at hs
+    next hc =>
+      obtain ⟨hk, hx⟩ := hc
+      simp only [Option.some.injEq] at hs; subst hs
+      have hcl := h.pClr _ _ _ hpc
+      constructor <;> try inv_frame h
+      case lk => have := h.lk; simp only [upd_apply]; grind
+      case pHave => have := h.pHave; simp only [upd_apply, Owned] at *; grind
+      case pClr => have := h.pClr; simp only [upd_apply, Owned] at *; grind
+      case pGot => have := h.pGot; simp only [upd_apply, Owned] at *; grind
+      case pX => have := h.pX; simp only [upd_apply]; grind
+      case single => have := h.single; simp only [upd_apply]; grind
+      case pXs => have := h.pXs; simp only [upd_apply]; grind
+    next => simp at hs
+  next => simp at hs
+
+theorem inv_stTail {t x : Nat} (h : Inv k s)
+    (hs : step k s (.stTail t x) = some s') : Inv k s' := by
+  simp only [step] at hs
+  split at hs
+  next v m p hpc =>
+    split at hs
+    next hc =>
+      subst hc
+      simp only [Option.some.injEq] at hs; subst hs
+      obtain ⟨hown, hnx, hk, hp⟩ := h.pGot _ _ _ _ hpc
+      refine inv_publish h hown hnx hp (Or.inr hpc) ?_
+      intro t' v' n' p' hg
+      have h1 := h.single hk t' (by rw [hg]; simp)
+      have h2 := h.single hk t (by rw [hpc]; simp)
+      rw [h1] at h2; exact Option.some.inj h2
+    next => simp at hs
+  next => simp at hs
+
+theorem inv_retPush {t r : Nat} (h : Inv k s)
+    (hs : step k s (.retPush t r) = some s') : Inv k s' := by
+  simp only [step] at hs
+  split at hs
+  next v hpc =>
+    split at hs
+    next hc =>
+      simp only [Option.some.injEq] at hs; subst hs
+      constructor <;> try inv_frame h
+      case lk => have := h.lk; simp only [upd_apply]; grind
+      case pHave => have := h.pHave; simp only [upd_apply, Owned] at *; grind
+      case pClr => have := h.pClr; simp only [upd_apply, Owned] at *; grind
+      case pGot => have := h.pGot; simp only [upd_apply, Owned] at *; grind
+      case pX => have := h.pX; simp only [upd_apply]; grind
+      case single => have := h.single; simp only [upd_apply]; grind
+      case pXs => have := h.pXs; simp only [upd_apply]; grind
+    next => simp at hs
+  next => simp at hs
+
+theorem inv_callPop {t : Nat} (h : Inv k s)
+    (hs : step k s (.callPop t) = some s') : Inv k s' := by
+  simp only [step] at hs
+  split at hs
+  next hc =>
+    obtain ⟨hidle, hpc⟩ := hc
+    simp only [Option.some.injEq] at hs; subst hs
+    constructor <;> try inv_frame h
+    case pHave => have := h.pHave; simp only [Owned, CPc.node] at *; grind
+    case pClr => have := h.pClr; simp only [Owned, CPc.node] at *; grind
+    case pGot => have := h.pGot; simp only [Owned, CPc.node] at *; grind
+    case vals => have := h.vals; simp only [inflight, hidle] at *; exact this
+    all_goals simp
+  next => simp at hs
+
+theorem inv_rdHead {t x : Nat} (h : Inv k s)
+    (hs : step k s (.rdHead t x) = some s') : Inv k s' := by
+  simp only [step] at hs
+  split at hs
+  next hcp =>
+    split at hs
+    next hc =>
+      obtain ⟨ht, hx⟩ := hc
+      simp only [Option.some.injEq] at hs; subst hs
+      constructor <;> try inv_frame h
+      case pHave => have := h.pHave; simp only [Owned, CPc.node] at *; grind
+      case pClr => have := h.pClr; simp only [Owned, CPc.node] at *; grind
+      case pGot => have := h.pGot; simp only [Owned, CPc.node] at *; grind
+      case vals => have := h.vals; simp only [inflight, hcp] at *; exact this
+      case cGotHead => intro h' hh; simp at hh; rw [← hh, hx]
+      all_goals simp
+    next => simp at hs
+  next => simp at hs
+
+theorem inv_rdNext {t n x : Nat} (h : Inv k s)
+    (hs : step k s (.rdNext t n x) = some s') : Inv k s' := by
+  simp only [step] at hs
+  split at hs
+  next h0 hcp =>
+    split at hs
+    next hc =>
+      obtain ⟨ht, hn, hx⟩ := hc
+      simp only [Option.some.injEq] at hs; subst hs
+      have hh := h.cGotHead _ hcp
+      constructor <;> try inv_frame h
+      case pHave => have := h.pHave; simp only [Owned, CPc.node] at *; grind
+      case pClr => have := h.pClr; simp only [Owned, CPc.node] at *; grind
+      case pGot => have := h.pGot; simp only [Owned, CPc.node] at *; grind
+      case vals => have := h.vals; simp only [inflight, hcp] at *; exact this
+      case cGotNext => intro h' x' hg; simp at hg; grind
+      all_goals simp
+    next => simp at hs
+  next => simp at hs
+
+theorem inv_wrHead {t x : Nat} (h : Inv k s)
+    (hs : step k s (.wrHead t x) = some s') : Inv k s' := by
+  simp only [step] at hs
+  split at hs
+  next h0 y hcp =>
+    split at hs
+    next hc =>
+      obtain ⟨ht, hy, hx⟩ := hc
+      subst hx
+      simp only [Option.some.injEq] at hs; subst hs
+      obtain ⟨hh, hnx⟩ := h.cGotNext _ _ hcp
+      have hnx := hnx hy
+      subst hh
+      have hq0 := h.hq
+      have hnd := h.nd
+      -- the queue has a second node, and it is `x`
+      have hlen : 1 < s.q.length := by
+        by_cases hl : s.q.length = 1
+        · have htl := h.tl
+          rw [hl] at htl
+          simp only [Nat.sub_self] at htl
+          rw [hq0] at htl
+          have : s.head = s.tail := Option.some.inj htl
+          have := h.last
+          grind
+        · have := h.qpos; omega
+      have hq1 : s.q[1]? = some x := by
+        have hb : s.q[1]? = some (s.q[1]'hlen) := List.getElem?_eq_getElem hlen
+        have := h.lk 0 s.head _ hq0 hb
+        rw [hb]; grind
+      have hhq : s.head ∉ s.q.drop 1 := by
+        intro hm
+        obtain ⟨j, hj⟩ := idx_of_mem hm
+        rw [idx_drop1] at hj
+        have := nodup_idx hnd hj hq0
+        omega
+      constructor
+      case qpos => simp only [List.length_drop]; omega
+      case hq => simp only [idx_drop1]; exact hq1
+      case tl =>
+        simp only [idx_drop1, List.length_drop]
+        have : s.q.length - 1 - 1 + 1 = s.q.length - 1 := by omega
+        rw [this]; exact h.tl
+      case nd => exact List.Nodup.sublist (List.drop_sublist 1 s.q) hnd
+      case nz => intro hm; exact h.nz (List.mem_of_mem_drop hm)
+      case lk =>
+        intro i a b hi hj
+        simp only [idx_drop1] at hi hj
+        exact h.lk (i + 1) a b hi hj
+      case last => exact h.last
+      case pHave =>
+        intro t' v' n' hp
+        obtain ⟨h1, h2, h3, h4, h5⟩ := h.pHave _ _ _ hp
+        have := head_mem h
+        refine ⟨h1, fun hm => h2 (List.mem_of_mem_drop hm), h3, h4, ?_⟩
+        simp only [CPc.node]; grind
+      case pClr =>
+        intro t' v' n' hp
+        obtain ⟨⟨h1, h2, h3, h4, h5⟩, h6⟩ := h.pClr _ _ _ hp
+        have := head_mem h
+        refine ⟨⟨h1, fun hm => h2 (List.mem_of_mem_drop hm), h3, h4, ?_⟩, h6⟩
+        simp only [CPc.node]; grind
+      case pGot =>
+        intro t' v' n' p' hp
+        obtain ⟨⟨h1, h2, h3, h4, h5⟩, h6⟩ := h.pGot _ _ _ _ hp
+        have := head_mem h
+        refine ⟨⟨h1, fun hm => h2 (List.mem_of_mem_drop hm), h3, h4, ?_⟩, h6⟩
+        simp only [CPc.node]; grind
+      case pX =>
+        intro t' v' n' p' hp
+        obtain ⟨h1, h2, hd, i, h3, h4⟩ := h.pX _ _ _ _ hp
+        have hi : i ≠ 0 := by
+          intro hi; subst hi
+          rw [hq0] at h3
+          have : s.head = p' := Option.some.inj h3
+          grind
+        refine ⟨h1, h2, hd, i - 1, ?_, ?_⟩
+        · simp only [idx_drop1]; have : i - 1 + 1 = i := by omega
+          rw [this]; exact h3
+        · simp only [idx_drop1]; have : i - 1 + 1 + 1 = i + 1 := by omega
+          rw [this]; exact h4
+      case single => exact h.single
+      case pXs => exact h.pXs
+      case vals =>
+        have hv := h.vals
+        simp only [inflight, hcp, List.append_nil] at hv
+        simp only [inflight, List.drop_drop]
+        rw [hv, drop1_eq_cons hq1]
+        simp
+      case cGotHead => intro h' hh; simp at hh
+      case cGotNext => intro h' x' hh; simp at hh
+      case cMoved =>
+        intro h' x' hm
+        simp only [CPc.moved.injEq] at hm
+        obtain ⟨rfl, rfl⟩ := hm
+        exact ⟨rfl, hhq⟩
+      case cGotData => intro h' x' d hh; simp at hh
+      case cWrote => intro h' d hh; simp at hh
+    next => simp at hs
+  next => simp at hs
+
+theorem inv_rdDataPop {t n d : Nat} (h : Inv k s)
+    (hs : step k s (.rdDataPop t n d) = some s') : Inv k s' := by
+  simp only [step] at hs
+  split at hs
+  next h0 x hcp =>
+    split at hs
+    next hc =>
+      obtain ⟨ht, hn, hd⟩ := hc
+      simp only [Option.some.injEq] at hs; subst hs
+      have hm := h.cMoved _ _ hcp
+      constructor <;> try inv_frame h
+      case pHave => have := h.pHave; simp only [Owned, hcp, CPc.node] at *; exact this
+      case pClr => have := h.pClr; simp only [Owned, hcp, CPc.node] at *; exact this
+      case pGot => have := h.pGot; simp only [Owned, hcp, CPc.node] at *; exact this
+      case vals => have := h.vals; simp only [inflight, hcp] at *; rw [hd]; exact this
+      case cGotData => intro h' x' d' hg; simp at hg; grind
+      all_goals simp
+    next => simp at hs
+  next => simp at hs
+
+theorem inv_wrDataPop {t n d : Nat} (h : Inv k s)
+    (hs : step k s (.wrDataPop t n d) = some s') : Inv k s' := by
+  simp only [step] at hs
+  split at hs
+  next h0 x d' hcp =>
+    split at hs
+    next hc =>
+      obtain ⟨ht, hn, hd⟩ := hc
+      subst hn hd
+      simp only [Option.some.injEq] at hs; subst hs
+      have hm := h.cGotData _ _ _ hcp
+      constructor <;> try inv_frame h
+      case pHave => have := h.pHave; simp only [Owned, hcp, CPc.node, upd_apply] at *; grind
+      case pClr => have := h.pClr; simp only [Owned, hcp, CPc.node, upd_apply] at *; grind
+      case pGot => have := h.pGot; simp only [Owned, hcp, CPc.node, upd_apply] at *; grind
+      case pX =>
+        intro t' v' n' p' hp
+        obtain ⟨h1, h2, hd, i, h3, h4⟩ := h.pX _ _ _ _ hp
+        have := mem_of_idx h4
+        refine ⟨h1, h2, ?_, i, h3, h4⟩
+        simp only [upd_apply]; grind
+      case vals =>
+        have hv := h.vals
+        simp only [inflight, hcp] at hv
+        simp only [inflight]
+        have hmap : (s.q.drop 1).map (upd s.data n d) = (s.q.drop 1).map s.data := by
+          apply List.map_congr_left
+          intro a ha
+          have : a ∈ s.q := List.mem_of_mem_drop ha
+          simp only [upd_apply]; grind
+        rw [hmap]; exact hv
+      case cWrote => intro h' d'' hg; simp at hg; simp only [upd_apply]; grind
+      all_goals simp
+    next => simp at hs
+  next => simp at hs
+
+theorem inv_rdDataClient {t n d : Nat} (h : Inv k s)
+    (hs : step k s (.rdDataClient t n d) = some s') : Inv k s' := by
+  simp only [step] at hs
+  split at hs
+  next h0 d' hcp =>
+    split at hs
+    next hc =>
+      obtain ⟨ht, hn, hd⟩ := hc
+      simp only [Option.some.injEq] at hs; subst hs
+      have hm := h.cWrote _ _ hcp
+      constructor <;> try inv_frame h
+      case pHave => have := h.pHave; simp only [Owned, hcp, CPc.node] at *; exact this
+      case pClr => have := h.pClr; simp only [Owned, hcp, CPc.node] at *; exact this
+      case pGot => have := h.pGot; simp only [Owned, hcp, CPc.node] at *; exact this
+      case vals => have := h.vals; simp only [inflight, hcp] at *; rw [hd, hm.1]; exact this
+      all_goals simp
+    next => simp at hs
+  next => simp at hs
+
+theorem inv_retPop {t v : Nat} (h : Inv k s)
+    (hs : step k s (.retPop t v) = some s') : Inv k s' := by
+  simp only [step] at hs
+  split at hs
+  next h0 y hcp =>
+    split at hs
+    next hc =>
+      simp only [Option.some.injEq] at hs; subst hs
+      constructor <;> try inv_frame h
+      case pHave => have := h.pHave; simp only [Owned, hcp, CPc.node] at *; grind
+      case pClr => have := h.pClr; simp only [Owned, hcp, CPc.node] at *; grind
+      case pGot => have := h.pGot; simp only [Owned, hcp, CPc.node] at *; grind
+      case vals => have := h.vals; simp only [inflight, hcp] at *; exact this
+      all_goals simp
+    next => simp at hs
+  next h0 d hcp =>
+    split at hs
+    next hc =>
+      simp only [Option.some.injEq] at hs; subst hs
+      constructor <;> try inv_frame h
+      case pHave => have := h.pHave; simp only [Owned, hcp, CPc.node] at *; grind
+      case pClr => have := h.pClr; simp only [Owned, hcp, CPc.node] at *; grind
+      case pGot => have := h.pGot; simp only [Owned, hcp, CPc.node] at *; grind
+      case vals => have := h.vals; simp only [inflight, hcp] at *; rw [this]; simp
+      all_goals simp
+    next => simp at hs
+  next => simp at hs
+
+/-- the structural invariant is inductive -/
+theorem inv_step {e : Ev} (h : Inv k s) (hs : step k s e = some s') : Inv k s' := by
+  cases e with
+  | callPush t v => exact inv_callPush h hs
+  | wrDataClient t n v => exact inv_wrDataClient h hs
+  | wrNext t n x => exact inv_wrNext h hs
+  | xchgTail t o n => exact inv_xchgTail h hs
+  | ldTail t x => exact inv_ldTail h hs
+  | stTail t x => exact inv_stTail h hs
+  | retPush t r => exact inv_retPush h hs
+  | callPop t => exact inv_callPop h hs
+  | rdHead t x => exact inv_rdHead h hs
+  | rdNext t n x => exact inv_rdNext h hs
+  | wrHead t x => exact inv_wrHead h hs
+  | rdDataPop t n x => exact inv_rdDataPop h hs
+  | wrDataPop t n x => exact inv_wrDataPop h hs
+  | rdDataClient t n x => exact inv_rdDataClient h hs
+  | retPop t v => exact inv_retPop h hs
 
 end steps
+
+/-! ### payload bookkeeping -/
+
+def Pc.val : Pc → Nat
+  | .idle => 0
+  | .called v => v
+  | .haveNode v _ => v
+  | .cleared v _ => v
+  | .gotTail v _ _ => v
+  | .xchgd v _ _ => v
+  | .linked v => v
+
+/-- the push has passed its publication step -/
+def Pc.pub : Pc → Bool
+  | .xchgd _ _ _ => true
+  | .linked _ => true
+  | _ => false
+
+/-- what a step does to the producers' program counters and the payload ghost lists -/
+inductive VShape (s s' : St) : Prop
+  | same (hpc : s'.pc = s.pc) (hc : s'.called = s.called) (hp : s'.pushed = s.pushed)
+      (hr : s'.returned = s.returned)
+  | move (t : Nat) (c : Pc) (hpc : s'.pc = upd s.pc t c) (h1 : s.pc t ≠ .idle) (h2 : c ≠ .idle)
+      (hv : c.val = (s.pc t).val) (hb : c.pub = (s.pc t).pub)
+      (hc : s'.called = s.called) (hp : s'.pushed = s.pushed) (hr : s'.returned = s.returned)
+  | publish (t : Nat) (c : Pc) (hpc : s'.pc = upd s.pc t c) (h1 : s.pc t ≠ .idle)
+      (h0 : (s.pc t).pub = false) (h2 : c ≠ .idle) (hv : c.val = (s.pc t).val) (hb : c.pub = true)
+      (hc : s'.called = s.called) (hp : s'.pushed = s.pushed ++ [c.val])
+      (hr : s'.returned = s.returned)
+  | call (t v : Nat) (h1 : s.pc t = .idle) (hpc : s'.pc = upd s.pc t (.called v)) (hv : v ≠ 0)
+      (hf : v ∉ s.called) (hc : s'.called = s.called ++ [v]) (hp : s'.pushed = s.pushed)
+      (hr : s'.returned = s.returned)
+  | ret (t v : Nat) (h1 : s.pc t = .linked v) (hpc : s'.pc = upd s.pc t .idle)
+      (hc : s'.called = s.called) (hp : s'.pushed = s.pushed)
+      (hr : s'.returned = s.returned ++ [v])
+
+theorem step_vshape {k : Kind} {s s' : St} {e : Ev} (hs : step k s e = some s') : VShape s s' := by
+  cases e <;> simp only [step] at hs
+  case callPush t v =>
+    split at hs <;> simp at hs
+    rename_i hc; subst hs
+    exact .call t v hc.1 rfl hc.2.1 hc.2.2.1 rfl rfl rfl
+  case wrDataClient t n x =>
+    split at hs
+    next v hpc =>
+      split at hs <;> simp at hs
+      subst hs
+      exact .move t (.haveNode v n) rfl (by rw [hpc]; simp) (by simp) (by rw [hpc]; rfl)
+        (by rw [hpc]; rfl) rfl rfl rfl
+    next => simp at hs
+  case wrNext t n x =>
+    split at hs
+    next v m hpc =>
+      split at hs <;> simp at hs
+      subst hs
+      exact .move t (.cleared v n) rfl (by rw [hpc]; simp) (by simp) (by rw [hpc]; rfl)
+        (by rw [hpc]; rfl) rfl rfl rfl
+    next v m p hpc =>
+      split at hs <;> simp at hs
+      subst hs
+      exact .move t (.linked v) rfl (by rw [hpc]; simp) (by simp) (by rw [hpc]; rfl)
+        (by rw [hpc]; rfl) rfl rfl rfl
+    next => simp at hs
+  case xchgTail t o n =>
+    split at hs
+    next v m hpc =>
+      split at hs <;> simp at hs
+      subst hs
+      exact .publish t (.xchgd v m o) rfl (by rw [hpc]; simp) (by rw [hpc]; rfl) (by simp)
+        (by rw [hpc]; rfl) rfl rfl rfl rfl
+    next => simp at hs
+  case ldTail t x =>
+    split at hs
+    next v m hpc =>
+      split at hs <;> simp at hs
+      subst hs
+      exact .move t (.gotTail v m x) rfl (by rw [hpc]; simp) (by simp) (by rw [hpc]; rfl)
+        (by rw [hpc]; rfl) rfl rfl rfl
+    next => simp at hs
+  case stTail t x =>
+    split at hs
+    next v m p hpc =>
+      split at hs <;> simp at hs
+      subst hs
+      exact .publish t (.xchgd v m p) rfl (by rw [hpc]; simp) (by rw [hpc]; rfl) (by simp)
+        (by rw [hpc]; rfl) rfl rfl rfl rfl
+    next => simp at hs
+  case retPush t r =>
+    split at hs
+    next v hpc =>
+      split at hs <;> simp at hs
+      subst hs
+      exact .ret t v hpc rfl rfl rfl rfl
+    next => simp at hs
+  case callPop t =>
+    split at hs <;> simp at hs
+    subst hs; exact .same rfl rfl rfl rfl
+  case rdHead t x =>
+    split at hs
+    next => split at hs <;> simp at hs; subst hs; exact .same rfl rfl rfl rfl
+    next => simp at hs
+  case rdNext t n x =>
+    split at hs
+    next => split at hs <;> simp at hs; subst hs; exact .same rfl rfl rfl rfl
+    next => simp at hs
+  case wrHead t x =>
+    split at hs
+    next => split at hs <;> simp at hs; subst hs; exact .same rfl rfl rfl rfl
+    next => simp at hs
+  case rdDataPop t n x =>
+    split at hs
+    next => split at hs <;> simp at hs; subst hs; exact .same rfl rfl rfl rfl
+    next => simp at hs
+  case wrDataPop t n x =>
+    split at hs
+    next => split at hs <;> simp at hs; subst hs; exact .same rfl rfl rfl rfl
+    next => simp at hs
+  case rdDataClient t n x =>
+    split at hs
+    next => split at hs <;> simp at hs; subst hs; exact .same rfl rfl rfl rfl
+    next => simp at hs
+  case retPop t v =>
+    split at hs
+    next => split at hs <;> simp at hs; subst hs; exact .same rfl rfl rfl rfl
+    next => split at hs <;> simp at hs; subst hs; exact .same rfl rfl rfl rfl
+    next => simp at hs
+
+structure VInv (s : St) : Prop where
+  callNd : s.called.Nodup
+  callNz : 0 ∉ s.called
+  pcCalled : ∀ t, s.pc t ≠ .idle → (s.pc t).val ∈ s.called
+  pre : ∀ t, s.pc t ≠ .idle → (s.pc t).pub = false → (s.pc t).val ∉ s.pushed
+  post : ∀ t, (s.pc t).pub = true → (s.pc t).val ∈ s.pushed
+  inj : ∀ t t', t ≠ t' → s.pc t ≠ .idle → (s.pc t).val ≠ (s.pc t').val
+  notRet : ∀ t, s.pc t ≠ .idle → (s.pc t).val ∉ s.returned
+  pushedSub : ∀ v, v ∈ s.pushed → v ∈ s.called
+  retSub : ∀ v, v ∈ s.returned → v ∈ s.pushed
+  pushedNd : s.pushed.Nodup
+
+theorem vinv_init (stub : Nat) : VInv (init stub) := by
+  constructor <;> simp [init, Pc.pub, Pc.val]
+
+theorem vinv_of_shape {s s' : St} (h : VInv s) (sh : VShape s s') : VInv s' := by
+  have idle_val : (Pc.idle).val = 0 := rfl
+  have idle_pub : (Pc.idle).pub = false := rfl
+  cases sh with
+  | same hpc hc hp hr =>
+    constructor <;> (try rw [hpc]) <;> (try rw [hc]) <;> (try rw [hp]) <;> (try rw [hr]) <;>
+      first
+      | exact h.callNd | exact h.callNz | exact h.pcCalled | exact h.pre | exact h.post
+      | exact h.inj | exact h.notRet | exact h.pushedSub | exact h.retSub | exact h.pushedNd
+  | move t c hpc h1 h2 hv hb hc hp hr =>
+    have := h.pcCalled; have := h.pre; have := h.post; have := h.inj; have := h.notRet
+    constructor <;> (try rw [hpc]) <;> (try rw [hc]) <;> (try rw [hp]) <;> (try rw [hr])
+    case callNd => exact h.callNd
+    case callNz => exact h.callNz
+    case pushedSub => exact h.pushedSub
+    case retSub => exact h.retSub
+    case pushedNd => exact h.pushedNd
+    all_goals (simp only [upd_apply]; grind)
+  | publish t c hpc h1 h0 h2 hv hb hc hp hr =>
+    have h3 := h.pcCalled; have h4 := h.pre; have h5 := h.post; have h6 := h.inj
+    have h7 := h.notRet; have h8 := h.pushedSub; have h9 := h.retSub
+    constructor <;> (try rw [hpc]) <;> (try rw [hc]) <;> (try rw [hp]) <;> (try rw [hr])
+    case callNd => exact h.callNd
+    case callNz => exact h.callNz
+    case pushedNd =>
+      rw [List.nodup_append]
+      refine ⟨h.pushedNd, by simp, ?_⟩
+      intro a ha b hb'; simp at hb'; subst hb'; intro he; subst he
+      rw [hv] at ha; exact h4 t h1 h0 ha
+    all_goals (simp only [upd_apply, List.mem_append, List.mem_singleton]; grind)
+  | call t v h1 hpc hv hf hc hp hr =>
+    have h3 := h.pcCalled; have h4 := h.pre; have h5 := h.post; have h6 := h.inj
+    have h7 := h.notRet; have h8 := h.pushedSub; have h9 := h.retSub
+    have hcz := h.callNz
+    have called_val : ∀ v, (Pc.called v).val = v := fun _ => rfl
+    have called_pub : ∀ v, (Pc.called v).pub = false := fun _ => rfl
+    constructor <;> (try rw [hpc]) <;> (try rw [hc]) <;> (try rw [hp]) <;> (try rw [hr])
+    case callNd =>
+      rw [List.nodup_append]
+      refine ⟨h.callNd, by simp, ?_⟩
+      intro a ha b hb'; simp at hb'; subst hb'; intro he; subst he; exact hf ha
+    case pushedNd => exact h.pushedNd
+    case retSub => exact h.retSub
+    all_goals (simp only [upd_apply, List.mem_append, List.mem_singleton]; grind)
+  | ret t v h1 hpc hc hp hr =>
+    have h3 := h.pcCalled; have h4 := h.pre; have h5 := h.post; have h6 := h.inj
+    have h7 := h.notRet; have h8 := h.pushedSub; have h9 := h.retSub
+    have hcz := h.callNz
+    have linked_val : ∀ v, (Pc.linked v).val = v := fun _ => rfl
+    have linked_pub : ∀ v, (Pc.linked v).pub = true := fun _ => rfl
+    constructor <;> (try rw [hpc]) <;> (try rw [hc]) <;> (try rw [hp]) <;> (try rw [hr])
+    case callNd => exact h.callNd
+    case callNz => exact h.callNz
+    case pushedSub => exact h.pushedSub
+    case pushedNd => exact h.pushedNd
+    all_goals (simp only [upd_apply, List.mem_append, List.mem_singleton]; grind)
+
+theorem vinv_step {k : Kind} {s s' : St} {e : Ev} (h : VInv s) (hs : step k s e = some s') :
+    VInv s' := vinv_of_shape h (step_vshape hs)
+
+theorem pushed_prefix_of_shape {s s' : St} (sh : VShape s s') : s.pushed <+: s'.pushed := by
+  cases sh with
+  | same _ _ hp _ => rw [hp]; exact List.prefix_refl _
+  | move _ _ _ _ _ _ _ _ hp _ => rw [hp]; exact List.prefix_refl _
+  | publish _ _ _ _ _ _ _ _ _ hp _ => rw [hp]; exact List.prefix_append _ _
+  | call _ _ _ _ _ _ _ hp _ => rw [hp]; exact List.prefix_refl _
+  | ret _ _ _ _ _ hp _ => rw [hp]; exact List.prefix_refl _
+
+theorem returned_mono_of_shape {s s' : St} (sh : VShape s s') {v : Nat} (hv : v ∈ s.returned) :
+    v ∈ s'.returned := by
+  cases sh with
+  | same _ _ _ hr => rw [hr]; exact hv
+  | move _ _ _ _ _ _ _ _ _ hr => rw [hr]; exact hv
+  | publish _ _ _ _ _ _ _ _ _ _ hr => rw [hr]; exact hv
+  | call _ _ _ _ _ _ _ _ hr => rw [hr]; exact hv
+  | ret _ _ _ _ _ _ hr => rw [hr]; exact List.mem_append_left _ hv
+
+/-- a payload in the hands of thread `t` stays there until the push returns -/
+theorem val_or_returned_of_shape {s s' : St} (sh : VShape s s') {t v : Nat} (hv : v ≠ 0)
+    (h : (s.pc t).val = v ∨ v ∈ s.returned) : (s'.pc t).val = v ∨ v ∈ s'.returned := by
+  have idle_val : (Pc.idle).val = 0 := rfl
+  have linked_val : ∀ v, (Pc.linked v).val = v := fun _ => rfl
+  have called_val : ∀ v, (Pc.called v).val = v := fun _ => rfl
+  cases sh with
+  | same hpc _ _ hr => rw [hpc, hr]; exact h
+  | move t' c hpc h1 h2 hv' hb hc hp hr => rw [hpc, hr]; simp only [upd_apply]; grind
+  | publish t' c hpc h1 h0 h2 hv' hb hc hp hr => rw [hpc, hr]; simp only [upd_apply]; grind
+  | call t' v' h1 hpc hv' hf hc hp hr => rw [hpc, hr]; simp only [upd_apply]; grind
+  | ret t' v' h1 hpc hc hp hr =>
+    rw [hpc, hr]; simp only [upd_apply, List.mem_append, List.mem_singleton]; grind
+
+/-! ### runs -/
+
+theorem runFrom_induct {σ ε : Type} (M : Sys σ ε) (P : σ → Prop)
+    (hstep : ∀ s e s', P s → M.step s e = some s' → P s')
+    {s s' : σ} {es : List ε} (h0 : P s) (h : M.runFrom s es = some s') : P s' := by
+  induction es generalizing s with
+  | nil => simp [Sys.runFrom] at h; subst h; exact h0
+  | cons e es ih =>
+    simp only [Sys.runFrom] at h
+    cases hst : M.step s e with
+    | none => simp [hst] at h
+    | some s1 => simp [hst] at h; exact ih (hstep _ _ _ h0 hst) h
+
+theorem invs_of_run {k : Kind} {stub : Nat} (h0 : stub ≠ 0) {es : List Ev} {s : St}
+    (h : (sys k stub).run es = some s) : Inv k s ∧ VInv s :=
+  Sys.inv_of_run (sys k stub) (fun s => Inv k s ∧ VInv s)
+    ⟨inv_init k stub h0, vinv_init stub⟩
+    (fun _ _ _ hi hs => ⟨inv_step hi.1 hs, vinv_step hi.2 hs⟩) h
+
+theorem invs_of_runFrom {k : Kind} {stub : Nat} {es : List Ev} {s s' : St}
+    (hi : Inv k s ∧ VInv s) (h : (sys k stub).runFrom s es = some s') : Inv k s' ∧ VInv s' :=
+  runFrom_induct (sys k stub) (fun s => Inv k s ∧ VInv s)
+    (fun _ _ _ hi hs => ⟨inv_step hi.1 hs, vinv_step hi.2 hs⟩) hi h
+
+theorem pushed_prefix_of_runFrom {k : Kind} {stub : Nat} {es : List Ev} {s s' : St}
+    (h : (sys k stub).runFrom s es = some s') : s.pushed <+: s'.pushed :=
+  runFrom_induct (sys k stub) (fun x => s.pushed <+: x.pushed)
+    (fun _ _ _ hp hs => List.IsPrefix.trans hp (pushed_prefix_of_shape (step_vshape hs)))
+    (List.prefix_refl _) h
+
+/-! ### consequences used by the property theorems -/
+
+theorem popped_prefix {k : Kind} {s : St} (h : Inv k s) : s.popped <+: s.pushed := by
+  rw [h.vals, List.append_assoc]; exact List.prefix_append _ _
+
+theorem popped_nodup {k : Kind} {s : St} (h : Inv k s) (hv : VInv s) : s.popped.Nodup := by
+  have hp := hv.pushedNd
+  rw [h.vals, List.append_assoc] at hp
+  exact (List.nodup_append.mp hp).1
+
+/-- order of publication respects real time: a push that returned before another one was
+    called is published first -/
+theorem realtime_core {k : Kind} {stub : Nat} {s1 s2 : St} {es : List Ev} {tB vA vB : Nat}
+    (hi : Inv k s1 ∧ VInv s1) (hA : vA ∈ s1.returned)
+    (hrun : (sys k stub).runFrom s1 (.callPush tB vB :: es) = some s2)
+    {i j : Nat} (hia : s2.pushed[i]? = some vA) (hjb : s2.pushed[j]? = some vB) : i < j := by
+  have hpre := pushed_prefix_of_runFrom hrun
+  have hv2 := (invs_of_runFrom hi hrun).2
+  -- `vB` was fresh when its push was called
+  have hfresh : vB ∉ s1.pushed := by
+    simp only [Sys.runFrom] at hrun
+    cases hst : (sys k stub).step s1 (.callPush tB vB) with
+    | none => simp [hst] at hrun
+    | some s1' =>
+      have hst' : step k s1 (.callPush tB vB) = some s1' := hst
+      simp only [step] at hst'
+      split at hst' <;> simp at hst'
+      rename_i hc
+      exact fun hm => hc.2.2.1 (hi.2.pushedSub _ hm)
+  have hA1 : vA ∈ s1.pushed := hi.2.retSub _ hA
+  obtain ⟨i0, hi0⟩ := idx_of_mem hA1
+  have hlt0 := idx_lt hi0
+  obtain ⟨l, hl⟩ := hpre
+  have hi0' : s2.pushed[i0]? = some vA := by
+    rw [← hl, List.getElem?_append_left hlt0]; exact hi0
+  have : i = i0 := nodup_idx hv2.pushedNd hia hi0'
+  subst this
+  by_cases hj : j < s1.pushed.length
+  · exfalso
+    rw [← hl, List.getElem?_append_left hj] at hjb
+    exact hfresh (mem_of_idx hjb)
+  · omega
+
+/-- at the instant a trypop reads `head->next = NULL`, either nothing follows the stub or the
+    producer of the next node sits between its publication and its link write -/
+theorem empty_core {k : Kind} {s s' : St} {t h : Nat} (hi : Inv k s)
+    (hs : step k s (.rdNext t h 0) = some s') :
+    h = s.head ∧ (s.q = [s.head] ∨ ∃ p v n, s.pc p = .xchgd v n s.head ∧ s.q[1]? = some n) := by
+  simp only [step] at hs
+  split at hs
+  next h0 hcp =>
+    split at hs
+    next hc =>
+      obtain ⟨ht, hn, hx⟩ := hc
+      subst hn
+      have hh := hi.cGotHead _ hcp
+      subst hh
+      refine ⟨rfl, ?_⟩
+      by_cases hl : s.q.length = 1
+      · left
+        have hq := hi.hq
+        match hq' : s.q with
+        | [] => simp [hq'] at hl
+        | [a] => simp [hq'] at hq; rw [hq]
+        | a :: b :: r => simp [hq'] at hl
+      · right
+        have hlen : 1 < s.q.length := by have := hi.qpos; omega
+        have hb : s.q[1]? = some (s.q[1]'hlen) := List.getElem?_eq_getElem hlen
+        have hbz : s.q[1]'hlen ≠ 0 := fun he => hi.nz (by rw [← he]; exact mem_of_idx hb)
+        rcases hi.lk 0 s.head _ hi.hq hb with hnx | ⟨_, p, v, hp⟩
+        · exact absurd (hx ▸ hnx).symm hbz
+        · exact ⟨p, v, _, hp, hb⟩
+    next => simp at hs
+  next => simp at hs
+
+/-- a trypop that returns 0 really took the "empty" path -/
+theorem ret_zero_core {k : Kind} {s s' : St} {t : Nat} (hi : Inv k s) (hv : VInv s)
+    (hs : step k s (.retPop t 0) = some s') : ∃ h, s.cpc = .gotNext h 0 := by
+  simp only [step] at hs
+  split at hs
+  next h0 y hcp =>
+    split at hs
+    next hc => exact ⟨h0, by rw [hcp, hc.2.1]⟩
+    next => simp at hs
+  next h0 d hcp =>
+    split at hs
+    next hc =>
+      exfalso
+      have hd : d = 0 := hc.2.symm
+      have hvals := hi.vals
+      simp only [inflight, hcp] at hvals
+      have : d ∈ s.pushed := by rw [hvals]; simp
+      rw [hd] at this
+      exact hv.callNz (hv.pushedSub _ this)
+    next => simp at hs
+  next => simp at hs
+
+/-- (one producer) if a trypop reads `head->next = NULL`, every push that has returned has
+    already been popped -/
+theorem spsc_empty_core {s s' : St} {t h : Nat} (hi : Inv .spsc s) (hv : VInv s)
+    (hs : step .spsc s (.rdNext t h 0) = some s') : ∀ v, v ∈ s.returned → v ∈ s.popped := by
+  have hcp : ∃ h0, s.cpc = .gotHead h0 := by
+    simp only [step] at hs
+    split at hs
+    next h0 hcp => exact ⟨h0, hcp⟩
+    next => simp at hs
+  obtain ⟨h0, hcp⟩ := hcp
+  have hvals := hi.vals
+  simp only [inflight, hcp, List.append_nil] at hvals
+  obtain ⟨_, hq | ⟨p, v, n, hp, hq1⟩⟩ := empty_core hi hs
+  · intro w hw
+    have := hv.retSub _ hw
+    rw [hvals, hq] at this
+    simpa using this
+  · obtain ⟨_, _, hdat, i, hi0, hi1⟩ := hi.pX _ _ _ _ hp
+    have hntl := hi.pXs rfl _ _ _ _ hp
+    have hnd := hi.nd
+    -- `n` is both the second and the last node
+    have h1 : 1 = s.q.length - 1 := by
+      have htl := hi.tl; rw [← hntl] at htl
+      exact nodup_idx hnd hq1 htl
+    have hdrop : s.q.drop 1 = [n] := by
+      rw [drop1_eq_cons hq1]
+      have : s.q.length ≤ 2 := by omega
+      simp [List.drop_eq_nil_iff.mpr this]
+    intro w hw
+    have hwp := hv.retSub _ hw
+    rw [hvals, hdrop] at hwp
+    simp only [List.map_cons, List.map_nil, List.mem_append, List.mem_singleton] at hwp
+    rcases hwp with hwp | hwp
+    · exact hwp
+    · exfalso
+      have hne : s.pc p ≠ .idle := by rw [hp]; simp
+      have := hv.notRet p hne
+      rw [hp] at this
+      simp only [Pc.val] at this
+      rw [hwp, hdat] at hw
+      exact this hw
 
 end LibfiberVerif.Mpsc
